@@ -8,6 +8,7 @@ package main
 //     22           cache.Shm.Reset()         23        Number = Loaded = 0 (segment otherwise untouched)
 //     25           a second process attaches (cache.NewSHM(key, .., false)) and runs the lookup battery
 //     26 ver size  a second process attaches while the header says version ver / size size (restored afterwards)
+//     27 id        bbs.ReloadUHash(id) (sysop only; implementation-only scenarios, not part of the model)
 //     30 ids...    set the lookup battery    31 h...   set the buckets whose chains are printed
 // Every op prints  <status> <code> [13 bytes for 13/14/15 | n uids for 25]  followed by the observation
 //   Number Loaded <#heads != -1> nb (h k slot*k end)*nb  <MAX_USERS*13 id bytes>  nl uid*nl
@@ -26,6 +27,7 @@ import (
 	"strings"
 	"unsafe"
 
+	"github.com/Ptt-official-app/go-pttbbs/bbs"
 	"github.com/Ptt-official-app/go-pttbbs/cache"
 	"github.com/Ptt-official-app/go-pttbbs/cmsys"
 	"github.com/Ptt-official-app/go-pttbbs/ptttype"
@@ -233,6 +235,16 @@ func c04Step(st *c04State, g []string) (res []string) {
 			return []string{"0", "0"}
 		}
 		return out[:2]
+	case 27:
+		id := c04ID(g[1:])
+		err := bbs.ReloadUHash(bbs.UUserID(types.CstrToString(id[:])))
+		switch {
+		case err == nil:
+			return []string{"0", "0"}
+		case errors.Is(err, bbs.ErrInvalidPermission):
+			return []string{"3", "7"}
+		}
+		return []string{"3", "8"}
 	case 30:
 		st.battery = c04IDs(g[1:])
 		return []string{"0", "0"}
